@@ -99,9 +99,32 @@ def run_shard(spec, tier, seed, budget_s):
             size = rng.choice(['tiny', 'small', 'small', 'medium'] + (['large'] if tier == 'thorough' else []))
             doc = gen.random_doc(rng, size, text_profile=rng.choice(['plain', 'rich']),
                                  props=rng.random() < 0.3)
+            label = 'random'
+            if rng.random() < 0.2 and gen.same_bare_names(doc, rng):
+                label = 'random.samebare'      # equal bare table names in different schemas
+                if rng.random() < 0.5:
+                    # ... and equal column names in those tables, so that a reference bound to the wrong twin still resolves
+                    twins = [t for t in doc.tables if t.name == doc.tables[0].name]
+                    ren = {}
+                    for t in twins[1:]:
+                        for a_, b_ in zip(twins[0].columns, t.columns):
+                            ren[(id(t), b_.name)] = a_.name
+                    for ti, t in enumerate(doc.tables):
+                        for c in t.columns:
+                            for r in c.inline_refs:
+                                key = (id(doc.tables[r.target]), r.col)
+                                r.col = ren.get(key, r.col)
+                    for r in doc.refs:
+                        r.cols1 = [ren.get((id(doc.tables[r.t1]), c), c) for c in r.cols1]
+                        r.cols2 = [ren.get((id(doc.tables[r.t2]), c), c) for c in r.cols2]
+                    for t in doc.tables:
+                        for ix in t.indexes:
+                            ix.subjects = [(k_, ren.get((id(t), v), v) if k_ == 'col' else v) for k_, v in ix.subjects]
+                        for c in t.columns:
+                            c.name = ren.get((id(t), c.name), c.name)
             exp = am.expected(doc)
             for s in range(nstyles):
-                check_doc(sh, doc, f'{seed}-{i}-{k}-{s}', expect=exp)
+                check_doc(sh, doc, f'{seed}-{i}-{k}-{s}', expect=exp, label=label)
             # metamorphic: inline -> standalone
             d2 = gen.inline_to_standalone(doc, rng)
             exp2 = am.expected(d2)
@@ -119,7 +142,7 @@ def conclusive(agg, tier):
     c = agg['counters']
     out = []
     for k in ('obs.docs.product.column', 'obs.docs.product.index', 'obs.docs.product.ref',
-              'obs.docs.random', 'obs.docs.random.standalone'):
+              'obs.docs.random', 'obs.docs.random.samebare', 'obs.docs.random.standalone'):
         if not c.get(k):
             out.append(f'sub-suite {k} executed no case')
     return out
